@@ -1148,28 +1148,62 @@ class PrepareAst:
             type_rhs = ObjTraits.gettype(val_rhs)
 
             def overloaded_operator(default_op, reverse_op):
-                if ObjTraits.hasattr(type_lhs, default_op):
+                def try_call(type_obj, op_name, first, second):
+                    # returns None if the method is missing or answers NotImplemented
+                    if not ObjTraits.hasattr(type_obj, op_name):
+                        return None
+
                     call = self.subcall(
-                        ObjTraits.getattr(type_lhs, default_op), [val_lhs, val_rhs], {}
+                        ObjTraits.getattr(type_obj, op_name), [first, second], {}
                     )
 
                     call.add_bound_statement(lhs)
                     call.add_bound_statement(rhs)
 
-                    if ObjTraits.get(call.result()) is not NotImplemented:
-                        return call
+                    if ObjTraits.get(call.result()) is NotImplemented:
+                        return None
+                    return call
 
-                reverse_call = self.subcall(
-                    ObjTraits.getattr(type_rhs, reverse_op), [val_rhs, val_lhs], {}
+                same_type = type_lhs is type_rhs
+
+                # CPython: if the right operand's type is a proper subclass of the left
+                # operand's type and provides a different implementation of the reflected
+                # method, the reflected method is tried first
+                reflected_first = (
+                    not same_type
+                    and isinstance(type_lhs, type)
+                    and isinstance(type_rhs, type)
+                    and issubclass(type_rhs, type_lhs)
+                    and ObjTraits.hasattr(type_rhs, reverse_op)
+                    and (
+                        not ObjTraits.hasattr(type_lhs, reverse_op)
+                        or ObjTraits.getattr(type_rhs, reverse_op)
+                        is not ObjTraits.getattr(type_lhs, reverse_op)
+                    )
                 )
 
-                reverse_call.add_bound_statement(lhs)
-                reverse_call.add_bound_statement(rhs)
+                if reflected_first:
+                    order = [
+                        (type_rhs, reverse_op, val_rhs, val_lhs),
+                        (type_lhs, default_op, val_lhs, val_rhs),
+                    ]
+                elif same_type:
+                    # CPython does not try the reflected method for operands of the same type
+                    order = [(type_lhs, default_op, val_lhs, val_rhs)]
+                else:
+                    order = [
+                        (type_lhs, default_op, val_lhs, val_rhs),
+                        (type_rhs, reverse_op, val_rhs, val_lhs),
+                    ]
 
-                assert (
-                    ObjTraits.get(reverse_call.result()) is not NotImplemented
-                ), f"both '{default_op}' and '{reverse_op}' returned NotImplemented"
-                return reverse_call
+                for type_obj, op_name, first, second in order:
+                    call = try_call(type_obj, op_name, first, second)
+                    if call is not None:
+                        return call
+
+                raise AssertionError(
+                    f"unsupported operand types for '{default_op}' (both '{default_op}' and '{reverse_op}' are missing or returned NotImplemented)"
+                )
 
             op = inp.op
 
@@ -1250,16 +1284,26 @@ class PrepareAst:
                 type_rhs = ObjTraits.gettype(val_rhs)
 
                 def evaluate(normal_name, reverse_name):
-                    first_result = self.subcall(
-                        ObjTraits.getattr(type_lhs, normal_name), [val_lhs, val_rhs], {}
-                    )
+                    attempts = [
+                        (type_lhs, normal_name, val_lhs, val_rhs),
+                        (type_rhs, reverse_name, val_rhs, val_lhs),
+                    ]
+
+                    # CPython: the reflected method of a proper subclass is tried first
+                    if (
+                        type_lhs is not type_rhs
+                        and isinstance(type_lhs, type)
+                        and isinstance(type_rhs, type)
+                        and issubclass(type_rhs, type_lhs)
+                    ):
+                        attempts.reverse()
+
+                    (t0, n0, a0, b0), (t1, n1, a1, b1) = attempts
+
+                    first_result = self.subcall(ObjTraits.getattr(t0, n0), [a0, b0], {})
 
                     if first_result.result() is NotImplemented:
-                        result = self.subcall(
-                            ObjTraits.getattr(type_rhs, reverse_name),
-                            [val_rhs, val_lhs],
-                            {},
-                        )
+                        result = self.subcall(ObjTraits.getattr(t1, n1), [a1, b1], {})
                     else:
                         result = first_result
 
